@@ -408,7 +408,7 @@ class ProgGen:
                                          ['fill', num(2), lab], ['fill', lab, num(0)], ['zero', lab], ['zerountil', lab],
                                          ['instr', 'jmp', [lab]], ['org', lab, None], ['const', 'KUNRES', lab]]))
         elif kind == 'register_ref':
-            main.insert(pos, ['data', 1, [('bin', '+', ('lab', rng.choice(['a', 'sp'])), ('num', '1'))]])
+            main.insert(pos, ['data', 1, [('bin', '+', ('lab', rng.choice(['a', 'sp', 'A', 'Sp'])), ('num', '1'))]])
         elif kind == 'local_no_region':
             main.insert(0, ['label', '.early'])
         elif kind == 'dup_label':
@@ -470,7 +470,7 @@ class ProgGen:
             main.insert(pos, ['define', 'DUPSYM', '1'])
             main.insert(pos, ['define', 'DUPSYM', '1'])
         elif kind == 'keyword_label':
-            main.insert(pos, ['label', rng.choice(['org', 'byte', '_fill', '.zero', 'BYTE1', 'define'])])
+            main.insert(pos, ['label', rng.choice(['org', 'byte', '_fill', '.zero', 'BYTE1', 'define', 'A', 'SP', 'b'])])   # keywords, registers in any case
         elif kind == 'cross_region':
             main += [['label', 'ra_1'], ['label', '.only_here'], ['instr', 'nop', []], ['label', 'rb_2'],
                      ['data', 2, [('lab', '.only_here')]]]
